@@ -27,7 +27,7 @@ RecOrdered == [i \in DOMAIN R.ordered |-> [R.ordered[i] EXCEPT !.x = Norm(@)]]
 RecExtra == {[R.extra[i] EXCEPT !.x = Norm(@)] : i \in DOMAIN R.extra}
 OrderedOK == D.ordered = RecOrdered
 ExtraOK == IF R.shape = "rownum"      \* the key of an unmatched row is its row number, which the emitted row does not carry
-           THEN {e.x : e \in D.extra} = {e.x : e \in RecExtra} /\ Cardinality(D.extra) = Len(R.extra)
+           THEN {<<e.t, e.x>> : e \in D.extra} = {<<e.t, e.x>> : e \in RecExtra} /\ Cardinality(D.extra) = Len(R.extra)
            ELSE D.extra = RecExtra /\ Cardinality(D.extra) = Len(R.extra)
 Verdict == PrintT(<<"VERDICT", t, OrderedOK, ExtraOK>>)
 =============================================================================
